@@ -1261,11 +1261,14 @@ class Index:
         try:
             sha1_reader = SHA1Reader(f)
             entries, version, extensions = read_index_dict_with_version(sha1_reader)
+            # Extensions have already been read by read_index_dict_with_version.
+            # Verify the checksum before publishing anything: an instance whose
+            # read() failed must not hold (and later write back) the entries of
+            # a damaged file.
+            sha1_reader.check_sha(allow_empty=True)
             self._version = version
             self._extensions = extensions
             self.update(entries)
-            # Extensions have already been read by read_index_dict_with_version
-            sha1_reader.check_sha(allow_empty=True)
         finally:
             f.close()
 
